@@ -37,7 +37,11 @@ def strategy_for(t):
             labs = draw(st.lists(st.sampled_from(sub), min_size=k, max_size=k))
             spec = dict(spec)
             if t == "events":
-                spec["events"] = [{"label": l, "type": 0, "values": [0x3F800000 + i]} for i, l in enumerate(labs)]
+                # (events may carry no value at all - the constructor's default - one value, or a sequence)
+                shape = draw(st.sampled_from(["one", "one", "none", "mixed"]))
+                spec["events"] = [{"label": l, "type": 0 if (shape != "mixed" or i % 3) else 1,
+                                   "values": [] if shape == "none" or (shape == "mixed" and i % 2 == 0) else [0x3F800000 + i] if (shape != "mixed" or i % 3) else [0x3F800000 + i, 0x40000000]}
+                                  for i, l in enumerate(labs)]
             else:
                 key = {"data3D": "tracks", "force3D": "tracks", "emg": "signals"}[t]
                 nk = "nSamples" if t == "emg" else "nFrames"
@@ -161,6 +165,25 @@ def make_run(t):
                 continue
             if not inside:
                 ctx.fail("membership-item-false", f"{t}: iterated item {i} is reported as not contained")
+        # several iterations over the same block alive at once: each yields every item, in order
+        if n >= 2:
+            outer = []
+            for x in b:
+                inner = [y for y in b]
+                if [id(y) for y in inner] != [id(y) for y in items]:
+                    ctx.fail("nested-iteration/inner", f"{t}: an iteration started inside another one over the same block yielded {len(inner)} of {n} items")
+                outer.append(x)
+            if [id(x) for x in outer] != [id(x) for x in items]:
+                ctx.fail("nested-iteration/outer", f"{t}: an iteration during which the same block was iterated again yielded {len(outer)} of {n} items")
+            pairs = list(zip(b, b))
+            if [(id(x), id(y)) for x, y in pairs] != [(id(x), id(x)) for x in items]:
+                ctx.fail("zip-block-with-itself", f"{t}: zip(block, block) yielded {len(pairs)} pairs for {n} items, or pairs of different items")
+            it1 = iter(b)
+            first = next(it1)
+            full = list(b)
+            rest = list(it1)
+            if first is not items[0] or [id(x) for x in full] != [id(x) for x in items] or [id(x) for x in rest] != [id(x) for x in items[1:]]:
+                ctx.fail("interleaved-iterators", f"{t}: an iterator advanced by one, a full pass, then the rest of the first iterator: got {1 + len(rest)} and {len(full)} items for {n}")
         # lookups issued while an iteration is in progress must neither disturb it nor be disturbed by it
         seen = []
         for i, it in enumerate(b):
